@@ -23,14 +23,14 @@ type c08Fill struct {
 type c08Case struct {
 	Part string `json:"part"` // presence | history
 	// presence
-	Mask   int    `json:"mask,omitempty"`   // bit0 FM, bit1 Fill, bit2 Assign, bit3 data/a.yml, bit4 theme.yml
-	Order  string `json:"order,omitempty"`  // FA | AF
+	Mask   int    `json:"mask,omitempty"`    // bit0 FM, bit1 Fill, bit2 Assign, bit3 data/a.yml, bit4 theme.yml
+	Order  string `json:"order,omitempty"`   // FA | AF
 	LoadAt string `json:"load_at,omitempty"` // first | last
-	Fill   string `json:"fill,omitempty"`   // map | struct | ptr
-	Var    string `json:"var,omitempty"`    // k | K
-	Type   string `json:"type,omitempty"`   // string | int | list
-	Read   string `json:"read,omitempty"`   // must | vif | bind | expr | get
-	Entry  string `json:"entry,omitempty"`  // render | renderfile | renderstring
+	Fill   string `json:"fill,omitempty"`    // map | struct | ptr
+	Var    string `json:"var,omitempty"`     // k | K
+	Type   string `json:"type,omitempty"`    // string | int | list
+	Read   string `json:"read,omitempty"`    // must | vif | bind | expr | get
+	Entry  string `json:"entry,omitempty"`   // render | renderfile | renderstring
 	// history
 	Prefix []string `json:"prefix,omitempty"`
 	Depth  int      `json:"depth,omitempty"`
